@@ -107,6 +107,7 @@ func kMaxSym(a, b int) int {
 
 // VerifC04_KernelUnion: keys = union, value = max.
 func VerifC04_KernelUnion() {
+	kKeys = kKeysAll[:zzverif.Param("KEYS", 3)]
 	n := 1 + zzverif.Choose("operands", zzverif.Param("E", 3))
 	label := UnionOperator
 	wg, edges := kNode(label, n)
@@ -144,6 +145,7 @@ func VerifC04_KernelUnion() {
 // VerifC04_KernelExclusion: keys = keys of the base, the subtract operand never
 // adds a key; value = max over both where the base has the key.
 func VerifC04_KernelExclusion() {
+	kKeys = kKeysAll[:zzverif.Param("KEYS", 3)]
 	wg, edges := kNode(ExclusionOperator, 2)
 	bw, bp := kSymWeights("base")
 	sw, sp := kSymWeights("subtract")
@@ -169,6 +171,7 @@ func VerifC04_KernelExclusion() {
 // VerifC04_KernelEdge: an edge copies its target's weights, +1 on direct and
 // tuple-to-userset edges unless Infinite.
 func VerifC04_KernelEdge() {
+	kKeys = kKeysAll[:zzverif.Param("KEYS", 3)]
 	wg := NewWeightedAuthorizationModelGraph()
 	wg.AddNode("doc#a", "doc#a", SpecificTypeAndRelation)
 	wg.AddNode("doc#b", "doc#b", SpecificTypeAndRelation)
